@@ -165,11 +165,16 @@ def lzx_e8_beyond_window(rng, wb=15, nwin=3):
     from vgen import lzx, cab, lz
     n = nwin * (1 << wb) + 5000
     body = bytearray(rng.choice(b"abcdefgh \n") for _ in range(n))
+    filesize = rng.choice([n, 0x00100000, 0x7FFFFFFF])
     for p in range(50, n - 10, 197):
         body[p] = 0xE8
-        struct.pack_into("<i", body, p + 1, rng.choice([0x1388, 0x10, 70000, -50, 0x20000, 5, -(p // 2), n - 100]))
+        # displacements in every range the translation distinguishes, and on each border: inside the image, the
+        # wrap-around range [filesize-p, filesize) (stored as a negative number), just outside on either side
+        v = rng.choice([0x1388, 0x10, 70000, -50, 0x20000, 5, -(p // 2), n - 100,
+                        filesize - p, filesize - p - 1, filesize - p + rng.randrange(p), filesize - 1, filesize, -p, -p - 1, -1, 0])
+        if not -(1 << 31) <= v < (1 << 31): v = -1
+        struct.pack_into("<i", body, p + 1, v)
     data = bytes(body)
-    filesize = rng.choice([n, 0x00100000, 0x7FFFFFFF])
     raw = lzx.e8_encode(data, filesize)
     toks = lz.greedy_tokens(raw, lzx.max_offset(wb), 2, 257, frame=32768, rng=rng)
     frames, total, info = lzx.lzx_frames(toks, wb, intel_filesize=filesize, rng=rng)
